@@ -32,7 +32,7 @@ var zzOriginMenus = [][]zzPat{
 	nil, // stands for ["*"]
 	{zzPExact},
 	{zzPSubsAny, zzPExact},
-	{zzPHTTP, zzPLoop6},
+	{zzPHTTP, zzPLoop6, zzPIP6b},
 	{zzPExact, zzPExactPort, zzPShare},
 	{zzPSubs, zzPDot},
 	{zzPLocalAny, zzPLoop4},
@@ -70,7 +70,7 @@ var zzRespHdrMenus = []zzRespHdrsAtom{
 }
 
 var zzMaxAgeMenu = []zzMaxAgeAtom{
-	{0, ""}, {-1, "0"}, {600, "600"}, {1, "1"}, {86400, "86400"}, {5, "5"},
+	{0, ""}, {-1, "0"}, {600, "600"}, {5, "5"}, {1, "1"}, {86400, "86400"}, // 5 is what browsers assume when the header is absent
 }
 
 // zzCfg is a drawn configuration together with its documented meaning.
@@ -98,7 +98,7 @@ func zzQuickLimits() zzLimits {
 	if zzTier() >= 1 {
 		return zzLimits{origins: 8, methods: 5, reqHdrs: 7, respHdrs: 5, maxAges: 6}
 	}
-	return zzLimits{origins: 4, methods: 3, reqHdrs: 5, respHdrs: 3, maxAges: 3}
+	return zzLimits{origins: 4, methods: 3, reqHdrs: 5, respHdrs: 3, maxAges: 4}
 }
 
 func zzPick(n, limit, fix int) int {
